@@ -87,7 +87,11 @@ def run(ctx):
              params=['self.fullMass', 'self.fullRadius', 'height'], results=None, consts=('G',)),
         dict(file='taurex/data/planet.py', cls='BasePlanet', method='calculate_scale_properties', coq='gen_scale_step',
              params=['H[i-1]', 'Pl[i]', 'Pl[i-1]', 'z[i-1]', 'T[i]', 'mu[i]'], results=['deltaz[i]', 'z[i]', 'g[i]', 'H[i]'],
-             loop=True, opaque={'self.gravity_at_height': ('grav_at', 1)}, consts=('KBOLTZ',))])
+             loop=True, opaque={'self.gravity_at_height': ('grav_at', 1)}, consts=('KBOLTZ',)),
+        dict(file='taurex/data/planet.py', cls='BasePlanet', method='gravity', coq='gen_surface_gravity',
+             params=['self.fullMass', 'self.fullRadius'], results=None, consts=('G',)),
+        dict(file='taurex/data/planet.py', cls='BasePlanet', method='calculate_scale_properties', coq='gen_scale_init',
+             params=['self.gravity', 'T[0]', 'mu[0]'], results=['g[0]', 'H[0]'], start='g[0]', consts=('KBOLTZ',))])
     from taurex import constants as K
     from taurex.data.planet import Planet
     rng = ctx.rng
